@@ -29,6 +29,7 @@ type PropConfig struct {
 	Structural  []StructuralCheck `json:"structural"`
 	NotCovered  []string `json:"not_covered"`
 	Replay      []ReplayAdapter `json:"replay"`
+	Sweep       *SweepConfig    `json:"sweep"`
 }
 
 type StructuralCheck struct {
@@ -54,6 +55,8 @@ func main() {
 	switch os.Args[1] {
 	case "verify":
 		os.Exit(cmdVerify(os.Args[2:]))
+	case "sweep":
+		os.Exit(cmdSweep(os.Args[2:]))
 	default:
 		fmt.Fprintln(os.Stderr, "unknown command")
 		os.Exit(2)
@@ -161,6 +164,49 @@ func cmdVerify(args []string) (code int) {
 		allObls = append(allObls, fv.obls...)
 		fvs = append(fvs, fv)
 		fnames = append(fnames, f)
+	}
+	// no-panic sweep: the functions of the committed claimed list, each under the thin contract `nopanic`
+	nSweep := 0
+	var sweepNotCovered int
+	if cfg.Sweep != nil {
+		var list SweepList
+		if d, err := os.ReadFile(filepath.Join(*verif, "sweeps", cfg.ID+".json")); err == nil {
+			json.Unmarshal(d, &list)
+		}
+		sweepNotCovered = len(list.NotCovered)
+		arity := v.arityFacts(*cfg.Sweep)
+		for _, k := range list.Claimed {
+			if *only != "" && !strings.Contains(k, *only) {
+				continue
+			}
+			fn := v.funcsByKey[modulePath+"/"+k]
+			if fn == nil {
+				// a claimed function that no longer exists: nothing to prove about it (renames are picked up by `sweep --update`)
+				fmt.Fprintf(os.Stderr, "warning: swept function %s no longer exists\n", k)
+				continue
+			}
+			fv := NewFuncVC(v, fn, v.sweepContract(fn, arity), cfg.ID)
+			fv.sweepMode = true
+			func() {
+				defer func() {
+					if r := recover(); r != nil {
+						// the function left the generator's subset: one failed obligation
+						msg := fmt.Sprint(r)
+						if ee, ok := r.(*EngineError); ok {
+							msg = ee.Msg
+						}
+						fv = NewFuncVC(v, fn, v.sweepContract(fn, arity), cfg.ID)
+						fv.obls = append(fv.obls, &Obligation{Name: fmt.Sprintf("%s/%s/sweep", cfg.ID, fv.funcName()), Kind: "safe:subset", Func: fv.funcName(), Pos: v.prog.Fset.Position(fn.Pos()).String(),
+							Text: "the function is within the generator's subset", ctx: fv.ctx, Static: true, Solver: "generator", Result: "failed", Model: msg})
+					}
+				}()
+				fv.VerifyTop()
+			}()
+			allObls = append(allObls, fv.obls...)
+			fvs = append(fvs, fv)
+			nSweep++
+		}
+		fnames = append(fnames, fmt.Sprintf("%d functions of the no-panic sweep (list: /verif/sweeps/%s.json; %d functions of the scope not covered, reasons there)", nSweep, cfg.ID, sweepNotCovered))
 	}
 	for _, ln := range cfg.Lemmas {
 		if *only != "" && !strings.Contains(ln, *only) {
